@@ -1,6 +1,7 @@
 import Gv.Proofs.FastaRT
 import Gv.Model.Fmt.Nexus
 import Gv.Proofs.StockholmRT
+import Gv.Model.Fmt.Auto
 /-!
 C02 — every alignment format round-trips losslessly through writer and parser.
 
@@ -348,5 +349,25 @@ theorem roundtrip_stockholm (m e : Bool) (o : POpts) (ho : normAlphabet o.alphab
   simp [Bag.finish, ho, BOTH, Bag.detect, autoAlphabet]
 
 end Stockholm
+
+/-! ## Auto-detection selects the format that was written -/
+
+/-- **Auto-detection**: for every non-empty list of rows (any names, any residues, any options) the first
+byte of each writer's output makes `ParseAlignmentAuto` / `ParseMultiAlignmentsAuto` pick the parser of
+the format that was written: `>` FASTA, `#` Nexus, `C` Clustal, a blank Phylip.  (An empty alignment is not
+representable; FASTA would then write nothing and the dispatch reports an error.) -/
+theorem autodetect_selects_written_format (rows : List XRow) (hne : rows ≠ []) (w : Nat)
+    (strict oneline noblock : Bool) (alphabet : Nat) (version : Seq) :
+    Auto.detect (Fasta.write w rows) = some .fasta ∧
+    Auto.detect (Nexus.write alphabet rows) = some .nexus ∧
+    Auto.detect (Clustal.write version alphabet rows) = some .clustal ∧
+    Auto.detect (Phylip.write strict oneline noblock rows) = some .phylip := by
+  refine ⟨?_, ?_, ?_, ?_⟩
+  · cases rows with
+    | nil => exact absurd rfl hne
+    | cons r rs => simp [Fasta.write, Fasta.writeRow, Auto.detect, Fasta.GT]
+  · simp [Nexus.write, Auto.detect]
+  · simp [Clustal.write, Auto.detect]
+  · simp [Phylip.write, Auto.detect, SP]
 
 end Gv.Props.C02
